@@ -1334,5 +1334,10 @@ pub fn generate(seed: u64, heap_heavy: bool, fail_pct: u32) -> Program {
     let mut rng = Rng::new(seed);
     let mut cfg = Swarm::draw(&mut rng, heap_heavy);
     cfg.fail_pct = fail_pct;
+    // one program in five ends without the epilogue: its result is then whatever the last expression
+    // statement left (possibly several statements back, with calls and collections in between)
+    if rng.chance(1, 5) {
+        cfg.epilogue = false;
+    }
     Gen::new(&mut rng, cfg).program()
 }
